@@ -150,6 +150,40 @@ def check(repo, rep, tier):
             rep.violation('R18.2', '%s:%s %s' % (mod.rel, g.lineno, qualname_of(fn)), '%s:%s:global' % (mod.rel, qualname_of(fn)),
                           'writes module state through `global %s`' % ', '.join(g.names))
     rep.floor('printer functions analysed', n, 35)
+    # ... nor through a setter of another module: functions of the package that rebind a module-level name (`global x;
+    # x = ..`, e.g. depccg.lang.set_global_language_to) change what every later rendering -- and the readers -- see
+    setters = {}
+    for rel2 in repo.py_files('depccg'):
+        if '/printer/' in rel2:
+            continue
+        try:
+            m2 = repo.module(rel2)
+        except AnalysisError:
+            continue
+        for f2 in [x for x in m2.tree.body if isinstance(x, ast.FunctionDef)]:
+            gl = [g for g in ast.walk(f2) if isinstance(g, ast.Global)]
+            if gl and any(isinstance(t, ast.Name) and isinstance(t.ctx, ast.Store) and t.id in {nm for g in gl for nm in g.names} for t in ast.walk(f2)):
+                setters[f2.name] = rel2
+    n_set = 0
+    for rel2 in repo.py_files('depccg/printer'):
+        m2 = repo.module(rel2)
+        imported = {}
+        for st_ in ast.walk(m2.tree):
+            if isinstance(st_, ast.ImportFrom) and st_.module:
+                for al in st_.names:
+                    if al.name in setters and setters[al.name].replace('/', '.')[:-3].endswith(st_.module.split('.')[-1]):
+                        imported[al.asname or al.name] = al.name
+        for c_ in ast.walk(m2.tree):
+            if isinstance(c_, ast.Call):
+                nm = c_.func.id if isinstance(c_.func, ast.Name) else (c_.func.attr if isinstance(c_.func, ast.Attribute) else None)
+                if (isinstance(c_.func, ast.Name) and nm in imported) or (isinstance(c_.func, ast.Attribute) and nm in setters and isinstance(c_.func.value, (ast.Name, ast.Attribute))
+                                                                          and src(c_.func.value).split('.')[-1] == setters[nm].split('/')[-1][:-3]):
+                    n_set += 1
+                    ef = enclosing_function(c_)
+                    rep.violation('R18.2', '%s:%s %s' % (rel2, c_.lineno, qualname_of(ef) if ef is not None else '<module>'), '%s:calls-setter:%s' % (rel2, nm),
+                                  'a printer calls %s (%s), which rebinds a module-level setting: rendering changes what later renderings and readers of the same process see'
+                                  % (imported.get(nm, nm), setters[imported.get(nm, nm)]))
+    rep.ok('R18.2', 'depccg/printer/*', 'no printer calls one of the %d functions of the package that rebind module-level settings (%s)' % (len(setters), sorted(setters)[:4]), nontrivial=bool(setters))
     from ..lints import r_module_state
     n_shared = r_module_state(repo, rep, 'R18.2', repo.py_files('depccg/printer') + ['depccg/utils.py', 'depccg/tree.py', 'depccg/cat.py', 'depccg/types.py'],
                               'it is shared by all renderings, so a rendering depends on those before it')
